@@ -12,9 +12,21 @@ SessionInitialized / SessionDestroyed events, results of login()/execute()/start
 rooms / server-sent distributed parameters are stored, open sockets).  The Lean driver executes the same
 script with `Session.step`; the canonical lines must be equal.
 
-case = {'cfg': {...}, 'ops': [[op, arg?]...], 'kind': str}
+case = {'cfg': {...}, 'ops': [[op, arg?]...], 'kind': str, 'model': bool (default True)}
   ops: start | login | logincut j | exec | populate | search | wl | pp | sr | loss <reason> | tick n | srvup b
        | srvreply accepted|rejected|garbled|eof | stop          (tick = 0.5 s of virtual time)
+       | loginat pre|j ev      login() as its own task, suspended before the reply / in the drain of burst write j
+                               (every drain from then on waits for a gate); then ev in stop | requested | timeout |
+                               unknown | eof | reset happens (stop() / disconnect_server() / disconnect(reason) in
+                               another task; the server closes / resets its end), then the gate opens
+       | loginrace k ev        the same without any gate: ev is issued k loop iterations after login() started
+                               (natural asyncio schedule; monitor only, `model: False`)
+       | lossheld <reason> closed|destr   a loss during which a listener of the APPLICATION for the CLOSED /
+                               SessionDestroyed event stays suspended (DataConnection.disconnect does not return)
+       | release               the suspended listeners return
+       | connect               the application calls network.connect_server() (valid while the watchdog is not in
+                               its reconnect delay)
+       | lossrec <reason>      a loss whose CLOSED listener (application) reconnects and logs in again inside the event
 An operation that is not applicable in the current state (e.g. `populate` without a reader) is skipped on
 both sides (`inv=1`); applicability is the same predicate on both sides.
 
@@ -103,14 +115,32 @@ def _cfg_line(cfg: dict) -> str:
         obffail=int(cfg['obffail']), mode=cfg['mode'], ndirs=cfg['ndirs'], d=d, f=f)
 
 
+def _loginat_line(cfg: dict, pos, ev: str) -> str:
+    """Model line of `loginat pos ev` (what the event amounts to depends on where the login is)."""
+    if pos == 'pre':
+        if ev == 'stop':
+            return 'loginbreak pre stop'
+        return 'loginbreak pre close ' + {'reset': 'read_error'}.get(ev, ev)
+    inside = pos < _burst_len(cfg)
+    if ev == 'stop':
+        return f'loginbreak {pos} stop'
+    if ev == 'eof':
+        return f'loginbreak {pos} srveof'
+    if ev == 'reset':           # the next write fails; after the last write the reader finds the reset
+        return f'loginbreak {pos} writefail' if inside else f'loginbreak {pos} close read_error'
+    return f'loginbreak {pos} close {ev}'
+
+
 def _model_lines(case: dict) -> list[str]:
     lines = [_cfg_line(case['cfg'])]
     for op in case['ops']:
         k = op[0]
-        if k in ('logincut', 'loss', 'tick', 'srvreply'):
+        if k in ('logincut', 'loss', 'tick', 'srvreply', 'lossheld', 'lossrec'):
             lines.append(f'{k} {op[1]}')
         elif k == 'srvup':
             lines.append(f'srvup {int(op[1])}')
+        elif k == 'loginat':
+            lines.append(_loginat_line(case['cfg'], op[1], op[2]))
         else:
             lines.append(k)
     return lines
@@ -155,6 +185,8 @@ class _Server:
                     writer.write(m.Login.Response(success=False, reason='INVALIDPASS').serialize())
                 elif self.mode == 'garbled':
                     writer.write(struct.pack('<II', 4, 1))      # a Login reply without a body
+                elif self.mode == 'hold':                       # no answer (yet)
+                    pass
                 else:                                           # 'eof': close instead of answering
                     writer.close()
             elif isinstance(msg, m.GetPeerAddress.Request):
@@ -211,6 +243,27 @@ def _classify(task: asyncio.Task) -> Optional[str]:
         except Exception:
             return 'timer'
     return 'other:' + qual
+
+
+def _descendants(task: asyncio.Task, acc: set):
+    """Tasks a task is waiting for through `asyncio.gather` (transitively): the sends of a call in progress."""
+    fut = getattr(task, '_fut_waiter', None)
+    for ch in getattr(fut, '_children', None) or ():
+        if isinstance(ch, asyncio.Task) and ch not in acc:
+            acc.add(ch)
+            _descendants(ch, acc)
+
+
+def _in_app_listener(task: asyncio.Task) -> bool:
+    """Is the task suspended inside one of the harness's (= the application's) gate listeners?"""
+    c = task.get_coro()
+    for _ in range(200):
+        if c is None:
+            return False
+        if getattr(c, '__name__', '') in ('gate_state', 'gate_destr'):
+            return True
+        c = getattr(c, 'cr_await', None)
+    return False
 
 
 def _run_impl(case: dict) -> dict:
@@ -281,33 +334,128 @@ def _run_impl(case: dict) -> dict:
             if isinstance(e.connection, ServerConnection):
                 if e.state == ConnectionState.CONNECTED:
                     ev['conn'] += 1
-                elif e.state == ConnectionState.CLOSED:
-                    ev['closed'].append(e.close_reason.name.lower())
+
+        async def on_closed_first(e):
+            # first in the chain (priority 0): the report itself, whatever the later listeners do
+            if isinstance(e.connection, ServerConnection) and e.state == ConnectionState.CLOSED:
+                ev['closed'].append(e.close_reason.name.lower())
+
+        # ---- listeners of the "application" that suspend (gates opened by the schedule) or reconnect in place;
+        # registered last: every listener of the library has run when they are reached
+        arm: dict = {'closed': None, 'destr': None}
+        held: list = []                  # gates of listeners that are suspended now
+        nested = {'fail': 0, 'inv': 0}
+
+        async def gate_state(e):
+            if not isinstance(e.connection, ServerConnection) or e.state != ConnectionState.CLOSED:
+                return
+            g, arm['closed'] = arm['closed'], None
+            if g is None:
+                return
+            if g == 'reconnect':
+                try:
+                    await client.network.connect_server()
+                except Exception:
+                    nested['fail'] += 1
+                if sconn.state == ConnectionState.CONNECTED and client.session is None and not flags['stopped']:
+                    try:
+                        await client.login()
+                    except Exception:
+                        pass
+                else:
+                    nested['inv'] += 1
+                return
+            held.append(g)
+            await g.wait()
+
+        async def gate_destr(e):
+            g, arm['destr'] = arm['destr'], None
+            if g is None:
+                return
+            held.append(g)
+            await g.wait()
 
         client.events.register(SessionInitializedEvent, on_init)
         client.events.register(SessionDestroyedEvent, on_destroyed)
         client.events.register(ConnectionStateChangedEvent, on_state)
-        keep = [on_init, on_destroyed, on_state]
+        client.events.register(ConnectionStateChangedEvent, on_closed_first, priority=0)
+        client.events.register(ConnectionStateChangedEvent, gate_state, priority=1000)
+        client.events.register(SessionDestroyedEvent, gate_destr, priority=1000)
+        keep = [on_init, on_destroyed, on_state, on_closed_first, gate_state, gate_destr]
         sconn = client.network.server_connection
         flags = {'started': False, 'stopped': False}
         marks = {'att': 0, 'recv': 0, 'init': 0, 'destr': 0, 'conn': 0, 'closed': 0, 'any_att': 0}
         me = asyncio.current_task()
+        app_calls: list = []             # calls of the application that are still in progress (tasks of the harness)
 
         def reader_alive():
             t = sconn._reader_task
             return t is not None and not t.done()
 
-        def pending_sites():
+        def wd_sleeping():
+            """Is the reconnect watchdog inside its job (= waiting out the reconnect delay)?"""
+            t = client.network._connection_watchdog_task._task
+            if t is None or t.done():
+                return False
+            aw = getattr(t.get_coro(), 'cr_await', None)
+            return getattr(aw, '__name__', '') == '_server_connection_watchdog_job'
+
+        def pending_tasks():
+            """(spawn site, task) of every pending task started by the library that does not belong to a call of
+            the application still in progress."""
+            mine = set(app_calls)
+            for t in list(mine):
+                _descendants(t, mine)
             out = []
             for t in asyncio.all_tasks():
-                if t is me or t.done():
+                if t is me or t.done() or t in mine:
                     continue
                 s = _classify(t)
                 if s is not None:
-                    out.append(s)
-            if 'scan' in out:       # children live and die with the scan task
-                out = [s for s in out if s != 'scan-child']
-            return sorted(out)
+                    out.append((s, t))
+            if any(s == 'scan' for s, _ in out):       # children live and die with the scan task
+                out = [(s, t) for s, t in out if s != 'scan-child']
+            return sorted(out, key=lambda x: x[0])
+
+        def pending_sites():
+            return [s for s, _ in pending_tasks()]
+
+        def held_sites():
+            """library tasks that are suspended inside a listener of the application"""
+            return [s for s, t in pending_tasks() if _in_app_listener(t)]
+
+        async def call(coro):
+            try:
+                await coro
+                return 'ok'
+            except AuthenticationError:
+                return 'auth'
+            except asyncio.CancelledError:
+                raise
+            except Exception:
+                return 'err'
+
+        async def do_event(evk):
+            """The event that hits a login in progress; returns (result of stop(), tasks when stop() returned)."""
+            if evk == 'stop':
+                flags['stopped'] = True
+                r = ''
+                try:
+                    await client.stop()
+                except BaseException as e:      # noqa
+                    r = 'raised:' + type(e).__name__
+                return r, pending_sites()
+            if evk == 'requested':
+                await client.network.disconnect_server()
+            elif evk in ('timeout', 'unknown'):
+                await sconn.disconnect(CloseReason[evk.upper()])
+            elif evk == 'eof':
+                srv.writers[-1].close()
+            elif evk == 'reset':
+                srv.writers[-1].reset()
+            else:
+                raise ValueError(f'bad event {evk!r}')
+            return '', None
 
         def snapshot(res='', exe='', fail=0, inv=0, tasks=None):
             srv_att = [a for a in net.attempts if a == ('srv', SERVER_PORT)]
@@ -329,7 +477,8 @@ def _run_impl(case: dict) -> dict:
                 u=int(len(client.users._users) > 0 or len(client.users.privileged_users) > 0),
                 r=int(len(client.rooms.rooms) > 0), p=int(params),
                 open=net.open_sockets() + len(net.listeners))
-            extra = {'any_att': len(net.attempts) - marks['any_att'], 'other_frames': len(new_msgs) - len(frames) - logins}
+            extra = {'any_att': len(net.attempts) - marks['any_att'], 'other_frames': len(new_msgs) - len(frames) - logins,
+                     'held': held_sites()}
             marks.update(att=len(srv_att), recv=len(srv.received), init=ev['init'], destr=ev['destr'],
                          conn=ev['conn'], closed=len(ev['closed']), any_att=len(net.attempts))
             return line, extra
@@ -387,6 +536,110 @@ def _run_impl(case: dict) -> dict:
                         w.fail_after = None
                     w.on_write = None
                     srv.mode = saved_mode
+            elif k in ('loginat', 'loginrace'):
+                pos, evk = op[1], op[2]
+                if not can_login:
+                    inv = 1
+                else:
+                    saved_mode, srv.mode = srv.mode, ('hold' if pos == 'pre' else 'accepted')
+                    w = sconn._writer
+                    gate = asyncio.Event()
+                    if k == 'loginat' and pos != 'pre':
+                        cnt = {'n': -1}
+
+                        def on_write(data, w=w, cnt=cnt, j=pos, gate=gate):
+                            cnt['n'] += 1
+                            if cnt['n'] == j + 1:           # write 0 is the Login request
+                                w.drain_gate = gate         # this drain and every later one wait for the schedule
+
+                        w.on_write = on_write
+                    lt = asyncio.ensure_future(call(client.login()))
+                    app_calls.append(lt)
+                    if k == 'loginat':
+                        await simloop.settle()
+                    else:
+                        for _ in range(pos):
+                            await asyncio.sleep(0)
+                    stopres, tasks_at_return = await do_event(evk)
+                    await simloop.settle()
+                    late = pending_sites() if evk == 'stop' else None     # created after stop() returned
+                    gate.set()
+                    w.drain_gate = None
+                    w.on_write = None
+                    await simloop.settle()
+                    res = stopres or await lt
+                    if not lt.done():
+                        await lt
+                    app_calls.remove(lt)
+                    srv.mode = saved_mode
+                    if tasks_at_return is not None:
+                        tasks_at_return = sorted(tasks_at_return + [t for t in late if t not in tasks_at_return])
+            elif k == 'lossheld':
+                r, which = op[1], op[2]
+                if not connected or r == 'connect_failed' or (r in ('eof', 'read_error') and not reader_alive()):
+                    inv = 1
+                else:
+                    if which == 'destr' and client.session is None:
+                        which = 'closed'                    # no session: no SessionDestroyedEvent to wait in
+                    arm[which] = asyncio.Event()
+                    t = None
+                    if r == 'eof':
+                        srv.writers[-1].close()
+                    elif r == 'read_error':
+                        srv.writers[-1].reset()
+                    elif r == 'write_error':
+                        w = sconn._writer
+                        w.fail_after = len(w.sent)
+                        t = asyncio.ensure_future(call(client.network.send_server_messages(m.Ping.Request())))
+                    elif r == 'requested':
+                        t = asyncio.ensure_future(call(client.network.disconnect_server()))
+                    else:
+                        t = asyncio.ensure_future(call(sconn.disconnect(CloseReason[r.upper()])))
+                    if t is not None:
+                        app_calls.append(t)
+                    await simloop.settle()
+                    arm[which] = None
+            elif k == 'release':
+                if not held:
+                    inv = 1
+                else:
+                    for g in held:
+                        g.set()
+                    held.clear()
+                    await simloop.settle()
+                    for t in list(app_calls):
+                        if t.done():
+                            app_calls.remove(t)
+            elif k == 'connect':
+                if not flags['started'] or flags['stopped'] or sconn.state != ConnectionState.CLOSED or wd_sleeping():
+                    inv = 1
+                else:
+                    try:
+                        await client.network.connect_server()
+                    except Exception:
+                        fail = 1
+            elif k == 'lossrec':
+                r = op[1]
+                if not connected or r == 'connect_failed' or (r in ('eof', 'read_error') and not reader_alive()):
+                    inv = 1
+                else:
+                    arm['closed'] = 'reconnect'
+                    nested.update(fail=0, inv=0)
+                    if r == 'eof':
+                        srv.writers[-1].close()
+                    elif r == 'read_error':
+                        srv.writers[-1].reset()
+                    elif r == 'write_error':
+                        w = sconn._writer
+                        w.fail_after = len(w.sent)
+                        await call(client.network.send_server_messages(m.Ping.Request()))
+                    elif r == 'requested':
+                        await client.network.disconnect_server()
+                    else:
+                        await sconn.disconnect(CloseReason[r.upper()])
+                    await simloop.settle()
+                    arm['closed'] = None
+                    fail, inv = nested['fail'], nested['inv']
             elif k == 'exec':
                 try:
                     await client.execute(GetUserStatusCommand('someone'))
@@ -494,50 +747,25 @@ def _burst_len(cfg: dict) -> int:
             + len(cfg['liked']) + len(cfg['hated']) + 1)
 
 
-def _mask_from(case: dict) -> Optional[int]:
-    """Index of the first `logincut` that really cuts the burst (from there on, until `stop`, the names of the
-    tracked users and the tracking / retry tasks depend on set iteration order and on retry timers)."""
-    n = _burst_len(case['cfg'])
-    for i, op in enumerate(case['ops']):
-        if op[0] == 'logincut' and op[1] < n:
-            return i
-    return None
-
-
-def _mask_line(line: str, level: int) -> str:
-    """level 3: the cutting login itself (frames, tracked users, tracking tasks, stored users are not compared);
-    level 2: until stop() (tracked users, tracking tasks, stored users); level 1: afterwards (stored users: user
-    objects are stored weakly and die with the garbage collector)."""
-    head, _, tail = line.partition(' | ')
-    d = _parse(line)
-    tasks = [t for t in d['tasks'].split(',') if t and t not in ('tracking', 'track-retry')]
-    if level >= 3:
-        head = ' '.join(p if not p.startswith('frames=') else 'frames=*' for p in head.split(' '))
-    parts = []
-    for p in tail.split(' '):
-        if p.startswith('tasks=') and level >= 2:
-            p = 'tasks=' + ','.join(tasks)
-        elif p.startswith('tracked=') and level >= 2:
-            p = 'tracked=*'
-        elif p.startswith('u='):
-            p = 'u=*'
-        parts.append(p)
-    return head + ' | ' + ' '.join(parts)
+def _interrupted(cfg: dict, op: list) -> bool:
+    """A login whose burst is interrupted: which of the frames written around the interruption reach the server
+    depends on how the tracking tasks' writes interleave with the listeners' — not compared."""
+    n = _burst_len(cfg)
+    if op[0] == 'logincut':
+        return op[1] < n
+    if op[0] == 'loginat':
+        return op[1] != 'pre' and op[1] < n
+    return False
 
 
 def _canon(case: dict, lines: list[str]) -> list[str]:
-    k = _mask_from(case)
-    if k is None:
-        return list(lines)
     out = []
-    stop_seen = False
-    for i, (op, l) in enumerate(zip(case['ops'], lines)):
-        if i < k:
-            out.append(l)
-            continue
-        if op[0] == 'stop':
-            stop_seen = True
-        out.append(_mask_line(l, 3 if i == k else (1 if stop_seen else 2)))
+    for op, l in zip(case['ops'], lines):
+        if _interrupted(case['cfg'], op):
+            head, _, tail = l.partition(' | ')
+            head = ' '.join(p if not p.startswith('frames=') else 'frames=*' for p in head.split(' '))
+            l = head + ' | ' + tail
+        out.append(l)
     return out
 
 
@@ -557,6 +785,19 @@ def _expected_burst(cfg: dict) -> tuple[list[str], set[str]]:
     if cfg['autojoin']:
         want += [f'JoinRoom({x})' for x in cfg['favs']]
     return want, {cfg['user']}
+
+
+def _is_stop(op: list) -> bool:
+    return op[0] == 'stop' or (op[0] in ('loginat', 'loginrace') and op[2] == 'stop')
+
+
+def _minus(tasks: list[str], held: list[str]) -> list[str]:
+    """tasks without those that are suspended inside a listener of the application (multiset difference)"""
+    out = list(tasks)
+    for h in held:
+        if h in out:
+            out.remove(h)
+    return out
 
 
 def _monitor(case: dict, impl: dict) -> list[Violation]:
@@ -583,18 +824,21 @@ def _monitor(case: dict, impl: dict) -> list[Violation]:
         destrs += n_destr
         session = row['s'] == '1'
         inv = row['inv'] == '1'
+        held = ex.get('held', [])
         # ---- M3: a session is destroyed exactly once
         if inits - destrs != (1 if session else 0):
             add('C16-destroy-count', f'after op #{i} {op}: {inits} sessions initialised, {destrs} destroyed, session '
                 f'{"present" if session else "absent"}', where, 'initialised - destroyed = 1 iff a session is present')
-        if closed and (had_session or n_init) and n_destr != n_init + (1 if had_session else 0):
+        if closed and (had_session or n_init) and op[0] != 'lossrec' and \
+                n_destr != n_init + (1 if had_session else 0):
             add('C16-destroy-count', f'server connection closed ({closed}) during op #{i} {op} but {n_destr} '
                 f'SessionDestroyedEvent(s) for {n_init + (1 if had_session else 0)} session(s)', where)
         if session and row['c'] != 'connected':
             add('C16-session-without-connection', f'after op #{i} {op} a session is present but the server connection '
                 f'is {row["c"]}', where)
         # ---- M1: the burst
-        if op[0] in ('login', 'tick', 'logincut') and n_init == 1 and session and not closed:
+        if op[0] in ('login', 'tick', 'logincut', 'loginat', 'loginrace', 'lossrec') and n_init == 1 and session \
+                and (not closed or op[0] == 'lossrec'):
             want, optional = _expected_burst(cfg)
             got = [f for f in row['frames'].split(';') if f]
             add_users = sorted(f[8:-1] for f in got if f.startswith('AddUser('))
@@ -616,8 +860,8 @@ def _monitor(case: dict, impl: dict) -> list[Violation]:
                 add('C16-exec-not-refused', f'execute() without a session was not refused (op #{i})', where)
             if had_session and row['exec'] != 'sent':
                 add('C16-exec-refused-with-session', f'execute() with a session was refused (op #{i})', where)
-        # ---- M4: loss resets the server-derived state
-        if closed and stop_at is None:
+        # ---- M4: loss resets the server-derived state (a reconnect inside the event starts a new session: lossrec)
+        if closed and stop_at is None and op[0] != 'lossrec':
             left = [n for n, v in (('users', row['u']), ('rooms', row['r']), ('distributed-parameters', row['p']),
                                    ('session', row['s'])) if v == '1']
             if row['tracked']:
@@ -629,8 +873,18 @@ def _monitor(case: dict, impl: dict) -> list[Violation]:
             elif left:
                 add('C16-not-reset:' + left[0], f'server connection closed ({closed}) in op #{i} {op} but still '
                     f'stored afterwards: {left}', where, 'users, rooms, tracking, distributed parameters empty')
+        # ---- M7: when a suspended listener of the application returns, the connection / session that was
+        # established meanwhile is not touched
+        if op[0] == 'release' and not inv:
+            before = rows[i - 1]
+            if closed or n_destr or (before['c'], before['s']) != (row['c'], row['s']):
+                add('C16-release-disturbs-connection', f'the return of a suspended CLOSED / SessionDestroyed listener '
+                    f'(op #{i}) changed the server connection: {before["c"]}/session={before["s"]} -> '
+                    f'{row["c"]}/session={row["s"]}, closed {closed}', where,
+                    'a connection and login made while the listener was suspended stay')
         # ---- M5: reconnect iff auto ∧ reason ∉ {requested, eof} ∧ not stopped
-        if stop_at is None and op[0] != 'stop':
+        if stop_at is None and not _is_stop(op):
+            by_app = op[0] in ('connect', 'lossrec')            # connection attempts of the application itself
             if pending_loss is not None and op[0] == 'tick' and not inv:
                 pending_loss['ticks'] += op[1]
                 pending_loss['att'] += int(row['att'])
@@ -648,34 +902,42 @@ def _monitor(case: dict, impl: dict) -> list[Violation]:
                     if int(row['login']) == 0:
                         add('C16-reconnect-no-login', f'reconnected (op #{i}) without a new login', where)
                     pending_loss = None
-            elif pending_loss is not None and int(row['att']):
+            elif pending_loss is not None and int(row['att']) and not by_app:
                 add('C16-reconnect-unrequested', f'server connect attempt during op #{i} {op}', where)
             was_connected = i > 0 and rows[i - 1]['c'] == 'connected'
-            if closed and not inv and (was_connected or int(row['conn']) or (op[0] == 'tick' and int(row['att']))):
+            if by_app and not inv:
+                if row['c'] == 'connected':
+                    pending_loss = None                          # the application has reconnected
+                elif op[0] == 'lossrec' and closed:
+                    pending_loss = {'reason': closed[0], 'ticks': 0, 'att': 0,
+                                    'want': bool(cfg['reconnect']) and closed[0] not in ('requested', 'eof')}
+            elif closed and not inv and (was_connected or int(row['conn']) or (op[0] == 'tick' and int(row['att']))):
                 # an established connection was lost, or a reconnect attempt of the watchdog failed
                 reason = closed[-1]
                 pending_loss = {'reason': reason, 'ticks': 0, 'att': 0,
                                 'want': bool(cfg['reconnect']) and reason not in ('requested', 'eof')}
-        # ---- M6: stop is final
-        if op[0] == 'stop' and not inv:
+        # ---- M6: stop is final (tasks that are suspended inside a listener of the application are not the
+        # library's to end; they must be gone once the listener has returned)
+        if _is_stop(op) and not inv:
             stop_at = i
             pending_loss = None
             if row['res'].startswith('raised'):
                 add('C16-stop-raised', f'stop() raised {row["res"][7:]}', where, 'stop() returns')
-            tasks = [t for t in row['tasks'].split(',') if t]
+            tasks = _minus([t for t in row['tasks'].split(',') if t], held)
+            tasks += [t for t in _minus(ex.get('tasks_settled', []), held) if t not in tasks]
             if tasks:
                 add('C16-stop-task-pending:' + tasks[0], f'after stop() returned, tasks started by the library are '
                     f'still pending: {tasks}', where, 'no pending library task')
             if int(row['open']) != 0:
                 add('C16-stop-socket-open', f'after stop() returned {row["open"]} socket(s) are open', where, '0')
         elif stop_at is not None and not inv:
-            tasks = [t for t in row['tasks'].split(',') if t]
+            tasks = _minus([t for t in row['tasks'].split(',') if t], held)
             if ex['any_att'] or int(row['att']) or int(row['conn']):
                 add('C16-connect-after-stop', f'a connection was attempted/opened after stop() (op #{i} {op}, '
                     f'{ex["any_att"]} attempts)', where, 'none is opened later')
             if int(row['login']) or n_init or row['frames'] or ex['other_frames']:
                 add('C16-traffic-after-stop', f'the server received frames after stop() (op #{i})', where)
-            if tasks and op[0] in ('tick', 'srvup', 'srvreply'):
+            if tasks and op[0] in ('tick', 'srvup', 'srvreply', 'release'):
                 add('C16-stop-task-pending:' + tasks[0], f'library tasks pending after stop(): {tasks} (op #{i})',
                     where)
             if int(row['open']) != 0:
@@ -728,9 +990,11 @@ def _gen_case(rng: random.Random) -> dict:
     inapplicable ones are skipped consistently by both sides)."""
     cfg = _gen_cfg(rng)
     kind = rng.choice(['idle-loss', 'idle-loss', 'burst-cut', 'login-variants', 'pending-work', 'reconnect',
-                       'reconnect', 'early-stop', 'mixed', 'mixed'])
+                       'reconnect', 'early-stop', 'mixed', 'mixed', 'burst-break', 'burst-break', 'held-listener',
+                       'held-listener', 'app-reconnect'])
     ops: list[list] = []
-    sh = {'up': True, 'reply': 'accepted', 'conn': False, 'sess': False, 'reader': False, 'wd': False, 'since': 0}
+    sh = {'up': True, 'reply': 'accepted', 'conn': False, 'sess': False, 'reader': False, 'wd': False, 'since': 0,
+          'held': 0}
     blen = _burst_len(cfg)
     wl_used = False
 
@@ -756,13 +1020,32 @@ def _gen_case(rng: random.Random) -> dict:
             else:
                 sh['conn'] = False
                 sh['since'] = 0
-        elif k == 'loss' and sh['conn']:
+        elif k == 'loginat' and sh['conn'] and not sh['sess'] and not sh['reader']:
+            sh['conn'] = sh['sess'] = sh['reader'] = False          # every event ends the connection
+            sh['since'] = 0
+            if op[2] in ('requested', 'eof', 'stop'):
+                sh['wd'] = False
+        elif k in ('loss', 'lossheld', 'lossrec') and sh['conn']:
             if op[1] in ('eof', 'read_error') and not sh['reader']:
                 return
             sh['conn'] = sh['sess'] = sh['reader'] = False
             sh['since'] = 0
             if op[1] in ('requested', 'eof'):
                 sh['wd'] = False
+            if k == 'lossheld':
+                sh['held'] += 1
+            if k == 'lossrec' and sh['up']:
+                sh['conn'] = True
+                sh['wd'] = cfg['reconnect']
+                if sh['reply'] == 'accepted':
+                    sh['sess'] = sh['reader'] = True
+                elif sh['reply'] == 'eof':
+                    sh['conn'] = sh['wd'] = False
+        elif k == 'release':
+            sh['held'] = 0
+        elif k == 'connect' and not sh['conn'] and sh['up']:
+            sh['conn'] = True
+            sh['wd'] = cfg['reconnect']
         elif k == 'tick':
             if not sh['conn'] and sh['wd']:
                 sh['since'] += op[1]
@@ -793,7 +1076,13 @@ def _gen_case(rng: random.Random) -> dict:
 
     def login():
         r = rng.random()
-        if kind == 'burst-cut' and r < 0.7 or r < 0.1:
+        if kind == 'burst-break' and r < 0.75 or r < 0.08:
+            ev = rng.choice(EVENTS[1:] if rng.random() < 0.8 else EVENTS)
+            pos = 'pre' if rng.random() < 0.12 else rng.randint(0, blen)
+            if ev == 'eof' and pos == 'pre':
+                ev = 'reset'                    # = login with the server answering by EOF (login-variants)
+            emit(['loginat', pos, ev])
+        elif kind == 'burst-cut' and r < 0.7 or r < 0.16:
             emit(['logincut', rng.randint(0, blen + 1)])
         elif kind == 'login-variants' or r < 0.3:
             mode = rng.choice(['rejected', 'garbled', 'eof', 'accepted'])
@@ -810,6 +1099,39 @@ def _gen_case(rng: random.Random) -> dict:
 
     def loss():
         pool = REASONS if sh['reader'] else ['write_error', 'requested', 'timeout', 'unknown']
+        r = rng.random()
+        if kind == 'held-listener' and r < 0.7 or r < 0.05:
+            emit(['lossheld', rng.choice(pool), rng.choice(['closed', 'destr'])])
+            # what happens while the listener is suspended: time (the watchdog reconnects), the application
+            # reconnects, work, stop(); then the listener returns (sometimes only after stop(), or never)
+            for _ in range(rng.randint(0, 3)):
+                c = rng.random()
+                if c < 0.45:
+                    emit(['tick', rng.choice([2, 19, 20, 21, 22, 30, 44])])
+                elif c < 0.65 and not sh['conn']:
+                    emit(['connect'])
+                    if sh['conn'] and rng.random() < 0.8:
+                        emit(['login'])
+                elif c < 0.8:
+                    work()
+                else:
+                    emit(['exec'])
+            if rng.random() < 0.8:
+                emit(['release'])
+                if sh['reader'] and rng.random() < 0.6:
+                    emit(['populate'])
+            return
+        if kind == 'app-reconnect' and r < 0.75 or r < 0.05:
+            if rng.random() < 0.5:
+                emit(['lossrec', rng.choice(pool)])
+            else:
+                emit(['loss', rng.choice(['requested', 'eof'] if sh['reader'] else ['requested'])])
+                if rng.random() < 0.3:
+                    emit(['tick', rng.choice([1, 4, 21, 30])])
+                emit(['connect'])
+                if sh['conn'] and rng.random() < 0.85:
+                    login()
+            return
         emit(['loss', rng.choice(pool)])
         if rng.random() < 0.7:
             if rng.random() < 0.15:
@@ -852,40 +1174,19 @@ def _gen_case(rng: random.Random) -> dict:
     if rng.random() < 0.3:
         emit(['tick', rng.choice([1, 3, 9, 19, 20, 21])])
     ops = ops[:26]
-    ops.append(['stop'])
+    for i, op in enumerate(ops):                # nothing but time and the environment after a stop() inside a login
+        if _is_stop(op):
+            ops = ops[:i + 1]
+            break
+    else:
+        ops.append(['stop'])
+    if sh['held'] and rng.random() < 0.7:
+        ops.append(['release'])                 # a listener that was still suspended at stop() returns afterwards
     if rng.random() < 0.25:
         ops.append(['srvup', True])
         ops.append(['srvreply', 'accepted'])
     ops.append(['tick', HOUR_TICKS])
-    case = {'cfg': cfg, 'ops': ops, 'kind': kind}
-    _sanitize(case)
-    return case
-
-
-def _sanitize(case: dict):
-    """Keep the script inside what the model describes (never a finding):
-    after a burst cut that leaves tracking entries behind (known finding) the stale tracking tasks make a later
-    automatic re-login time dependent — with reconnect on, the reconnect delay must not elapse before stop()."""
-    cfg = case['cfg']
-    n = _burst_len(cfg)
-    budget = None
-    out = []
-    for op in case['ops']:
-        if op[0] == 'stop':
-            budget = None
-        if budget is not None:
-            if op[0] == 'tick':
-                t = min(op[1], budget)
-                budget -= t
-                if t == 0:
-                    continue
-                op = ['tick', t]
-            elif op[0] in ('login', 'logincut'):
-                continue
-        if op[0] == 'logincut' and op[1] < n and budget is None:
-            budget = 20 if cfg['reconnect'] else 10 ** 9
-        out.append(op)
-    case['ops'] = out
+    return {'cfg': cfg, 'ops': ops, 'kind': kind}
 
 
 def _base_cfg(**kw) -> dict:
@@ -952,9 +1253,101 @@ DIRECTED = [
     {'kind': 'directed-server-down', 'cfg': _base_cfg(),
      'ops': [['srvup', False], ['start'], ['tick', 50], ['srvup', True], ['tick', 50]] + END},
 ]
-# the known finding (kept separate: it is replayed through known_witnesses as well)
+# the witness of the former known finding C16-residual-tracking-after-write-failure-in-burst (repaired by
+# fixes/C16-session-destroyed-during-login + fixes/C16-tracking-cancel-lost-in-failed-write)
 WITNESS_RESIDUAL = {'kind': 'directed-cut-before-users', 'cfg': _base_cfg(reconnect=False),
                     'ops': [['start'], ['logincut', 1], ['tick', 4]] + END}
+
+EVENTS = ['stop', 'requested', 'timeout', 'unknown', 'eof', 'reset']
+
+
+def _break_sweep(cfg: dict, events: list[str], tag: str) -> list[dict]:
+    """stop() / disconnect / loss at EVERY suspension point of login(): before the reply and in each awaited write
+    of the burst; afterwards time for the watchdog, a command, stop(), 1 h."""
+    out = []
+    for pos in ['pre'] + list(range(_burst_len(cfg))):
+        for ev in events:
+            if pos == 'pre' and ev == 'eof':
+                continue                        # = `srvreply eof` + login
+            ops = [['start'], ['loginat', pos, ev]]
+            if ev == 'stop':
+                ops += [['srvup', True], ['tick', 44], ['exec'], ['tick', HOUR_TICKS]]
+            else:
+                ops += [['tick', 4], ['exec'], ['tick', 20], ['exec'], ['populate']] + END
+            out.append({'kind': f'sweep-{tag}-{ev}', 'cfg': cfg, 'ops': ops})
+    return out
+
+
+def _race_sweep(cfg: dict, events: list[str], ks, tag: str) -> list[dict]:
+    """The same without gates: the event is issued k loop iterations after login() started (monitor only)."""
+    out = []
+    for ev in events:
+        for k in ks:
+            ops = [['start'], ['loginrace', k, ev]]
+            ops += [['tick', 44], ['exec'], ['tick', HOUR_TICKS]] if ev == 'stop' else \
+                [['tick', 4], ['exec'], ['tick', 44], ['exec']] + END
+            out.append({'kind': f'race-{tag}-{ev}', 'cfg': cfg, 'ops': ops, 'model': False})
+    return out
+
+
+HELD = [
+    # the SessionDestroyed listener of the application stays suspended while the watchdog reconnects and logs in;
+    # then it returns: the new connection keeps reading and writing, nothing is left open after stop()
+    {'kind': 'directed-held-destr-reconnect', 'cfg': _base_cfg(),
+     'ops': [['start'], ['login'], ['populate'], ['lossheld', 'read_error', 'destr'], ['tick', 22], ['release'],
+             ['exec'], ['populate'], ['tick', 4]] + END},
+    {'kind': 'directed-held-closed-reconnect', 'cfg': _base_cfg(),
+     'ops': [['start'], ['login'], ['lossheld', 'read_error', 'closed'], ['tick', 22], ['exec'], ['release'],
+             ['exec'], ['populate'], ['tick', 30]] + END},
+    {'kind': 'directed-held-timeout-reconnect', 'cfg': _base_cfg(),
+     'ops': [['start'], ['login'], ['lossheld', 'timeout', 'destr'], ['tick', 22], ['release'], ['populate'],
+             ['exec']] + END},
+    {'kind': 'directed-held-write-error-reconnect', 'cfg': _base_cfg(),
+     'ops': [['start'], ['login'], ['lossheld', 'write_error', 'closed'], ['tick', 22], ['release'], ['populate'],
+             ['exec']] + END},
+    # the application reconnects while its own listener is suspended (EOF / requested: the watchdog is stopped)
+    {'kind': 'directed-held-eof-app-reconnect', 'cfg': _base_cfg(),
+     'ops': [['start'], ['login'], ['lossheld', 'eof', 'closed'], ['tick', 4], ['connect'], ['login'], ['release'],
+             ['populate'], ['exec']] + END},
+    {'kind': 'directed-held-requested-app-reconnect', 'cfg': _base_cfg(reconnect=False),
+     'ops': [['start'], ['login'], ['lossheld', 'requested', 'destr'], ['connect'], ['login'], ['release'],
+             ['populate'], ['exec']] + END},
+    # stop() while the listener is suspended (the stale reader waits in the application's code), then it returns
+    {'kind': 'directed-held-stop-release', 'cfg': _base_cfg(),
+     'ops': [['start'], ['login'], ['lossheld', 'read_error', 'destr'], ['tick', 4], ['stop'], ['release'],
+             ['tick', HOUR_TICKS]]},
+    {'kind': 'directed-held-reconnect-stop-release', 'cfg': _base_cfg(),
+     'ops': [['start'], ['login'], ['lossheld', 'read_error', 'closed'], ['tick', 22], ['stop'], ['release'],
+             ['tick', HOUR_TICKS]]},
+    # two losses in a row, both listeners suspended
+    {'kind': 'directed-held-twice', 'cfg': _base_cfg(),
+     'ops': [['start'], ['login'], ['lossheld', 'read_error', 'destr'], ['tick', 22], ['lossheld', 'eof', 'closed'],
+             ['connect'], ['login'], ['release'], ['populate'], ['exec']] + END},
+    # a manual reconnect after a requested disconnect announces everything again
+    {'kind': 'directed-app-reconnect', 'cfg': _base_cfg(reconnect=False),
+     'ops': [['start'], ['login'], ['populate'], ['loss', 'requested'], ['tick', 30], ['connect'], ['login'],
+             ['exec'], ['srvup', False], ['loss', 'eof'], ['connect'], ['tick', 4]] + END},
+] + [
+    # the CLOSED listener of the application reconnects and logs in inside the event
+    {'kind': f'directed-lossrec-{r}', 'cfg': _base_cfg(reconnect=rec),
+     'ops': [['start'], ['login'], ['populate'], ['lossrec', r], ['exec'], ['populate'], ['tick', 30], ['exec']] + END}
+    for r in REASONS for rec in (False, True)
+]
+
+
+def _sweeps(tier: str) -> list[dict]:
+    out = _break_sweep(_base_cfg(), EVENTS, 'fallback')
+    out += _break_sweep(_base_cfg(race=True, reconnect=False), ['stop', 'requested'], 'race-mode')
+    out += _race_sweep(_base_cfg(reconnect=False), ['stop'], range(0, 46), 'natural')
+    out += _race_sweep(_base_cfg(), ['requested', 'reset', 'timeout'], range(0, 46, 2), 'natural')
+    if tier != 'quick':
+        small = _base_cfg(friends=[], liked=[], hated=[], favs=[], wishlist=0, reconnect=False)
+        big = _base_cfg(friends=['f1', 'f2', 'f3', 'me'], liked=['rock', 'jazz'], hated=['pop', 'noise'], autojoin=False)
+        out += _break_sweep(small, EVENTS, 'small') + _break_sweep(big, EVENTS, 'big')
+        out += _break_sweep(_base_cfg(race=True), EVENTS, 'race-mode-full')
+        out += _race_sweep(big, EVENTS, range(0, 60), 'natural-big')
+        out += _race_sweep(_base_cfg(race=True), ['stop', 'requested', 'eof', 'unknown'], range(0, 46), 'natural-race-mode')
+    return out
 
 
 def _eval_case(case):
@@ -1013,17 +1406,20 @@ class C16(Property):
         res = KResult()
         rng = random.Random(f'C16-{seed}')
         n = (600 if tier == 'quick' else 5000) * widen
-        cases = list(DIRECTED) + [WITNESS_RESIDUAL] + [_gen_case(rng) for _ in range(n)]
+        cases = list(DIRECTED) + [WITNESS_RESIDUAL] + list(HELD) + _sweeps(tier) + [_gen_case(rng) for _ in range(n)]
         impl = common.parallel_map(_eval_case, cases, chunksize=4)
         model = None
         if model_ok:
             lines, spans = [], []
             for c in cases:
+                if not c.get('model', True):            # monitor-only family (natural schedules)
+                    spans.append(None)
+                    continue
                 ls = _model_lines(c)
                 spans.append((len(lines) + 1, len(ls) - 1))       # skip the answer to `cfg`
                 lines += ls
             out = common.run_driver(self.driver_file, lines)
-            model = [out[a:a + k] for a, k in spans]
+            model = [None if sp is None else out[sp[0]:sp[0] + sp[1]] for sp in spans]
         else:
             res.model_available = False
         for i, c in enumerate(cases):
@@ -1043,9 +1439,18 @@ class C16(Property):
                     stopped = True
                 if int(row['init']):
                     feats.add('session')
-                if op[0] == 'loss':
+                if op[0] in ('loss', 'lossheld', 'lossrec'):
                     feats.add('loss')
                     res.count('loss:' + op[1])
+                if op[0] in ('loginat', 'loginrace'):
+                    feats.add('burst-break')
+                    res.count(f'{op[0]}:{op[2]}' + (':pre' if op[1] == 'pre' else ''))
+                    if row['closed'] and int(row['init']):
+                        res.count('burst-break:session-destroyed-inside-login')
+                if op[0] == 'release':
+                    feats.add('held-listener')
+                    if any(int(r2['att']) for r2 in rows[:rows.index(row)] ):
+                        res.count('release-after-reconnect')
                 for r in row['closed'].split(','):
                     if r:
                         res.count('closed:' + r)
@@ -1070,9 +1475,10 @@ class C16(Property):
                         res.count('stop-in-state:' + before['c'] + ('+session' if before['s'] == '1' else ''))
             for f in feats:
                 res.count('feature:' + f)
-            if 'session' in feats and feats & {'loss', 'pending-at-stop', 'login-variant', 'burst-cut'}:
+            if 'session' in feats and feats & {'loss', 'pending-at-stop', 'login-variant', 'burst-cut', 'burst-break',
+                                               'held-listener'}:
                 res.nontrivial_keys.add(common.sha([c['cfg'], c['ops']]))
-            if model is not None:
+            if model is not None and model[i] is not None:
                 res.traces_validated += 1
                 a, b = _canon(c, model[i]), _canon(c, io['lines'])
                 if a != b:
@@ -1092,7 +1498,7 @@ class C16(Property):
         return _monitor(case, io)
 
     def known_witnesses(self):
-        return [(KNOWN_RESIDUAL, WITNESS_RESIDUAL)]
+        return []       # the former known finding is repaired; its witness is a directed case (WITNESS_RESIDUAL)
 
 
 PROPERTY = C16()
